@@ -75,8 +75,9 @@ package sql
 //@   ensures[C17] read-only: db == old(db)
 
 //@ func (*Persister).DeleteAllRelationTuples$1
-//@   props C06
+//@   props C05 C06
 //@   requires p != nil && wfquery(query)
+//@   callsite (*Persister).queryWithNetwork requires[C05] tx-context: $arg1 == ctx
 
 // ---- the raw-SQL traverser (C06 network binding, C07 cursor, C13 safety)
 //@ spec wft(t *Traverser) bool = t != nil && t.conn != nil && t.d != nil && t.p != nil
@@ -111,3 +112,63 @@ package sql
 //@   ensures[C17] read-only: db == old(db)
 //@   loop 1 invariant db == old(db) && (isnil(relations) || fresh(relations))
 //@   loop 2 invariant db == old(db) && (isnil(res) || fresh(res))
+
+// ---- write path (C04 builders, C05 transaction context, C06 network binding of raw statements)
+// ASSUMED: popx.Transaction runs the callback with a context that carries the transaction
+// connection, commits iff the callback returns nil and rolls back otherwise (T6).
+//@ func (*Persister).Transaction
+//@   trusted
+//@   modifies db, wfailed
+//@   requires p != nil && f != nil
+
+// The chunk loops of Write/DeleteRelationTuples are range-over-func loops; their bodies are the
+// synthetic yield closures below. The enclosing methods are ASSUMED to return the first error.
+//@ func (*Persister).WriteRelationTuples
+//@   trusted
+//@   modifies db, wfailed
+//@   ensures wfailed == (old(wfailed) || err != nil)
+//@ func (*Persister).DeleteRelationTuples
+//@   trusted
+//@   modifies db, wfailed
+//@   ensures wfailed == (old(wfailed) || err != nil)
+
+//@ func (*Persister).TransactRelationTuples$1
+//@   props C05 C13
+//@   requires p != nil && ctx != nil
+//@   modifies db, wfailed
+//@   callsite (*Persister).WriteRelationTuples requires[C05] tx-context: $arg1 == ctx
+//@   callsite (*Persister).DeleteRelationTuples requires[C05] tx-context: $arg1 == ctx
+//@   ensures[C05] error-returned: !old(wfailed) && result == nil ==> !wfailed
+
+//@ func (*Persister).WriteRelationTuples$1$1
+//@   props C05 C06 C13
+//@   noframe
+//@   requires p != nil && ctx != nil && jump$1 == 0
+//@   requires forall i in 0..len(arg0) :: arg0[i] != nil && (arg0[i].Subject == nil || wfsubject(arg0[i].Subject))
+//@   callsite (*Persister).Connection requires[C05] tx-connection: $arg1 == ctx
+//@   callsite buildInsert requires[C06] insert-bound-to-network: $arg1 == netid(p, ctx)
+
+//@ func (*Persister).DeleteRelationTuples$1$1
+//@   props C05 C06 C13
+//@   noframe
+//@   requires p != nil && ctx != nil && jump$1 == 0
+//@   requires forall i in 0..len(arg0) :: arg0[i] != nil && (arg0[i].Subject == nil || wfsubject(arg0[i].Subject))
+//@   callsite (*Persister).Connection requires[C05] tx-connection: $arg1 == ctx
+//@   callsite buildDelete requires[C06] delete-bound-to-network: $arg0 == netid(p, ctx)
+
+//@ func buildInsert
+//@   props C04 C06 C13
+//@   noframe
+//@   requires forall i in 0..len(rs) :: rs[i] != nil && (rs[i].Subject == nil || wfsubject(rs[i].Subject))
+//@   callsite Fprintf requires[C04] column-order: litcontains($arg1, "(shard_id, nid, namespace, object, relation, subject_id, subject_set_namespace, subject_set_object, subject_set_relation, commit_time) VALUES ")
+//@   ensures[C04] ten-arguments-per-row: err == nil ==> len(args) == 10 * len(rs)
+//@   loop 1 invariant len(args) == 10 * $n && (isnil(args) || fresh(args))
+//@   loop 1 step[C06] row-carries-the-network-id: rt.NetworkID == nid
+
+//@ func buildDelete
+//@   props C04 C06 C13
+//@   noframe
+//@   requires forall i in 0..len(rs) :: rs[i] != nil && (rs[i].Subject == nil || wfsubject(rs[i].Subject))
+//@   callsite Sprintf requires[C06] nid-is-a-top-level-conjunct: litcontains($arg0, "DELETE FROM %s WHERE (%s) AND nid = ?") && litcount($arg0, "?") == 1
+//@   ensures[C06] last-argument-is-the-network-id: err == nil ==> len(args) >= 1 && as(args[len(args) - 1], uuid.UUID) == nid
+//@   loop 1 invariant (isnil(args) || fresh(args)) && (isnil(ors) || fresh(ors))
